@@ -16,7 +16,9 @@ Start == Begin /\ ref' = {} /\ cur' = {} /\ run' = 0 /\ refOut' = <<>> /\ unsche
 EvRun == IsEv("Run") /\ Accept /\ cur' = {} /\ run' = Ev.run /\ unsched' = FALSE /\ UNCHANGED <<ref, refOut>>
 EvEntry == IsEv("Entry") /\ Accept /\ cur' = cur \cup {<<"e", Ev.labels, Ev.ts, Ev.line>>} /\ UNCHANGED <<ref, run, refOut, unsched>>
 EvPoint == IsEv("Point") /\ Accept /\ cur' = cur \cup {<<"p", Ev.labels, Ev.t, Ev.val>>} /\ UNCHANGED <<ref, run, refOut, unsched>>
-EvReturn == IsEv("Return") /\ Accept /\ cur' = cur \cup {<<"r", Ev.outcome, Ev.kind>>} /\ UNCHANGED <<ref, run, refOut, unsched>>
+\* (no fault is injected in this family: a query that fails is a mistake of the case, not a repeatable result worth comparing)
+EvReturn == IsEv("Return") /\ Ev.outcome # "err" /\ Accept /\ cur' = cur \cup {<<"r", Ev.outcome, Ev.kind>>} /\ UNCHANGED <<ref, run, refOut, unsched>>
+BadCase == RejectEnv /\ Ev.ev = "Return" /\ Ev.outcome = "err" /\ UNCHANGED fam
 EvUnsched == IsEv("Unschedulable") /\ Accept /\ unsched' = TRUE /\ UNCHANGED <<ref, cur, run, refOut>>
 \* rendered bytes (colour off): identical to the first rendering
 RenderedOk == IF run = 1 \/ unsched THEN TRUE ELSE Ev.out = refOut[1]
@@ -26,11 +28,11 @@ EvRunEnd == IsEv("RunEnd") /\ RunEndOk /\ Accept /\ ref' = (IF run = 1 THEN cur 
 
 Free == {"Query", "List", "ListFail", "ContainerLogs", "Release", "OpenOk", "OpenFail", "FaultHit", "Eof", "Close", "TsTexts"}
 EvFree == More /\ ~skip /\ Ev.ev \in Free /\ Accept /\ UNCHANGED fam
-Explained == \/ Ev.ev \in Free \/ Ev.ev \in {"Run", "Entry", "Point", "Return", "Unschedulable"}
+Explained == \/ Ev.ev \in Free \/ Ev.ev \in {"Run", "Entry", "Point", "Return", "Unschedulable"}       \* (a failing Return is taken by BadCase)
              \/ Ev.ev = "Rendered" /\ RenderedOk
              \/ Ev.ev = "RunEnd" /\ RunEndOk
 Bad  == Reject /\ ~Explained /\ UNCHANGED fam
-Next == Start \/ EvRun \/ EvEntry \/ EvPoint \/ EvReturn \/ EvUnsched \/ EvRendered \/ EvRunEnd \/ EvFree \/ Bad
+Next == Start \/ BadCase \/ EvRun \/ EvEntry \/ EvPoint \/ EvReturn \/ EvUnsched \/ EvRendered \/ EvRunEnd \/ EvFree \/ Bad
         \/ (Skipped /\ UNCHANGED fam) \/ (Finish /\ UNCHANGED fam)
 TraceSpec == Init /\ [][Next]_vars
 =============================================================================
